@@ -384,16 +384,19 @@ def c13(k, ctx):
 def c16(k, ctx):
     ctx.rule = ("Mkn / Peg cases: one (configuration, seed) run whose final matrix is replayed as an insertion trace (grids over rows 3..12, cols <= 24, wr, wc, both policies, "
                 "min girth none/4/6/8, backtracking, 6 (20) seeds each; failures are counted, not judged); Twice: same config+seed again and on another thread; Seeds: digests over consecutive "
-                "seeds; Search: the rayon seed search under 1/4/16 threads vs sequential runs of every seed in range (tries 0..20); non-trivial = distinct successful runs with a girth "
-                "constraint, backtracking, or the uniform policy, plus Search cases with at least one succeeding seed")
+                "seeds; Search: the rayon seed search under 1/4/16 threads vs sequential runs of every seed in range (tries 0..20); Sel / Min / Cmp: util.rs called directly through the cfg-guarded hook on vectors of "
+                "length 0..10 over 1..4 key values (many ties), every n in 0..len+1, 64 seeds each; non-trivial = distinct successful runs with a girth "
+                "constraint, backtracking, or the uniform policy, Search cases with at least one succeeding seed, and selections with a tie at the cut")
     for c in ("MC_MacKayNeal_1.cfg", "MC_MacKayNeal_2.cfg", "MC_MacKayNeal_3.cfg"):
         ctx.tlc_mc("MC_MacKayNeal", c)
     ctx.tlc_mc("MC_Peg", "MC_Peg.cfg")
     ctx.tlc_mc("MC_Peg", "MC_Peg_2.cfg")
+    ctx.tlc_mc("MC_Util", "MC_Util.cfg", workers=4)                               # util.rs selections = exactly the legal selections
+    ctx.tlc_mc("MC_Util", "MC_Util_neg.cfg", workers=2, expect_violation=True)
     ctx.tlc_mc("MC_Bfs", "MC_Bfs_asfound.cfg" if False else "MC_Bfs.cfg")      # the local-girth / distance algorithms the constructions rely on
     ctx.vh("gen", "i2s", timeout=3000)
     recs, rej = ctx.validate("Trace_C16", timeout=3000)
-    ctx.require_events("Mkn", "Peg", "Twice", "Seeds", "Search")
+    ctx.require_events("Mkn", "Peg", "Twice", "Seeds", "Search", "Sel", "Min", "Cmp")
     for r in recs:
         if r["e"] == "Mkn" and r.get("res") == "ok" and (r["cfg"]["min_girth"] != -1 or r["cfg"]["bt_trials"] > 0 or r["cfg"]["uniform"]):
             ctx.nontrivial_keys.add(k.key("M", r["cfg"], r["seed"]))
@@ -401,6 +404,8 @@ def c16(k, ctx):
             ctx.nontrivial_keys.add(k.key("P", r["cfg"], r["seed"]))
         elif r["e"] == "Search" and r["o"] == "ok" and r["ok_seeds"]:
             ctx.nontrivial_keys.add(k.key("S", r["cfg"], r["start"], r["tries"], r["threads"]))
+        elif r["e"] in ("Sel", "Min") and r["o"] == "ok" and r.get("distinct", 0) >= 2:
+            ctx.nontrivial_keys.add(k.key("U", r["e"], r["keys"], r.get("n"), r["seed"]))
     ctx.extra["runs"] = {"mkn_ok": sum(1 for r in recs if r["e"] == "Mkn" and r.get("res") == "ok"), "mkn_err": sum(1 for r in recs if r["e"] == "Mkn" and r.get("res") == "err"),
                          "peg_ok": sum(1 for r in recs if r["e"] == "Peg" and r.get("res") == "ok"), "search_found": sum(1 for r in recs if r["e"] == "Search" and r.get("found")),
                          "search_none": sum(1 for r in recs if r["e"] == "Search" and r.get("found") is False)}
@@ -519,7 +524,7 @@ def _flipbit(w):
 
 # property -> (trace spec, cfg, [(event name, predicate on event, path, mutation, what)])
 BINDING = {
-    "C01": ("Trace_C01", "Trace.cfg", [("Decode", lambda e: e["verdict"] == "ok" and e["iters"] > 0, ["word"], _flipbit, "flip a bit of a successful word"),
+    "C01": ("Trace_C01", "Trace.cfg", [("Decode", lambda e: e["verdict"] == "ok" and e["iters"] > 0 and any(0 in r for r in e["rows"]), ["word"], _flipbit, "flip a checked bit of a successful word"),
                                        ("Decode", lambda e: e["verdict"] == "err" and e["limit"] > 0, ["iters"], lambda x: x - 1, "iteration count of a failure below the limit")]),
     "C02": ("Trace_C02", "Trace.cfg", [("Enc", lambda e: e.get("acc") and len(e["pairs"]) > 1, ["pairs", 1, "c"], _flipbit, "flip a bit of a codeword"),
                                        ("Enc", lambda e: e.get("acc") is False, ["acc"], lambda x: True, "claim acceptance of a singular tail")]),
@@ -533,6 +538,11 @@ BINDING = {
                                        ("Node", lambda e: e["o"] == "ok" and max(e["rd"]) > 0, ["rd"], lambda d: [x + 2 if x > 0 else x for x in d], "distances off by two")]),
     "C15": ("Trace_C15", "Trace.cfg", [("Il", lambda e: len(e["y"]) > 3 and e["C"] > 1 and len(e["x"]) // e["C"] > 1, ["y"], lambda y: [y[1], y[0]] + y[2:], "two outputs swapped"),
                                        ("De", lambda e: e.get("v") == "ok" and 0 in e["pat"] and len(e["y"]) > 0, ["y"], lambda y: [v or 1 for v in y], "removed block not zero")]),
+    "C16": ("Trace_C16", "Trace.cfg", [("Sel", lambda e: e["o"] == "ok" and not e["res"]["none"] and 2 <= e["n"] < len(e["keys"]),
+                                        ["res", "sel"], lambda r: [r[0]] * len(r), "a selection that returns one item twice"),
+                                       ("Min", lambda e: e["o"] == "ok" and len(e["keys"]) >= 2 and max(e["keys"]) > min(e["keys"]),
+                                        ["keys"], lambda ks: [max(ks) + 1 - x for x in ks], "a minimum that is not minimal"),
+                                       ("Peg", lambda e: e.get("res") == "ok" and e["cfg"]["wc"] >= 2 and e["cfg"]["nr"] > 3, ["cols", 2], lambda c: [c[0]] * len(c), "a PEG column with a repeated check")]),
     "C17": ("Trace_C17", "Trace.cfg", [("Op", lambda e: e["o"] == "ok" and len(e["obs"]["rw"]) > 0, ["obs", "rw", 0], lambda x: x + 1, "row weight off by one")]),
     "C18": ("Trace_C18", "Trace.cfg", [("Name", lambda e: True, ["show"], lambda x: x + "x", "Display string differs"),
                                        ("Table", lambda e: True, ["behave", 3, "fp"], lambda x: x[::-1], "a factory decoder behaves differently")]),
